@@ -166,6 +166,7 @@ func ewExec(r *core.Run, c ewCase) (*core.Fail, string) {
 	av, bv, sv := ewVals(d, n, c.vs)
 	same := strings.HasPrefix(c.mode, "same+")
 	mode := strings.TrimPrefix(c.mode, "same+")
+	incr := strings.HasPrefix(mode, "incr:")
 	var A, B, D *atlas.Built
 	var err error
 	build := func(vals []interface{}, lay string, dt ref.DT) (*atlas.Built, error) {
@@ -293,7 +294,6 @@ func ewExec(r *core.Run, c ewCase) (*core.Fail, string) {
 	if same {
 		opts = append(opts, tensor.AsSameType())
 	}
-	incr := strings.HasPrefix(mode, "incr:")
 	// snapshots
 	var snapA, snapB, snapD atlas.Snap
 	if A != nil {
@@ -351,7 +351,25 @@ func ewExec(r *core.Run, c ewCase) (*core.Fail, string) {
 			return nil
 		}
 		if ch := b.Changed(s); ch != "" {
-			return core.F("operand-changed", name, "%s (%s, not the destination) changed: %s", name, b.Layout, ch)
+			tag := ""
+			if n == 1 && incr && c.kind == "arith" && len(b.View.Cell) == 1 && ((b == A && c.form != "ST") || (b == B && c.form == "ST")) {
+				// DEFECT model of F-C07-incr-len1-mutates-a: for one-element operands the incr kernels first compute
+				// op(a,b) in place in the (first) tensor operand and then add it to the increment tensor
+				x, y := av[0], bv[0]
+				switch c.form {
+				case "TS", "TSt":
+					y = sv
+				case "ST", "StT":
+					x = sv
+				}
+				if w := ref.Arith(c.op, x, y); !w.Refuse && !w.Skip {
+					got := ref.SliceGet(b.Root, b.View.Cell[0])
+					if ref.Same(got, w.V) || ref.Close(got, w.V) {
+						tag = "[KF:incr-len1-mutates-a]"
+					}
+				}
+			}
+			return core.F("operand-changed"+tag, name, "%s (%s, not the destination) changed: %s", name, b.Layout, ch)
 		}
 		return nil
 	}
@@ -383,6 +401,7 @@ func ewExec(r *core.Run, c ewCase) (*core.Fail, string) {
 		}
 	}
 	wrongSize := strings.HasSuffix(mode, ":wrongsize")
+	_ = wrongSize
 	if !supported(c.kind, c.op, d) {
 		// the library does not offer this operation for this element type: it must then refuse it everywhere
 		if o.Class == "ok" {
